@@ -1364,3 +1364,25 @@ impl<T> From<Error> for RecvHeaderBlockError<T> {
         RecvHeaderBlockError::State(err)
     }
 }
+
+#[cfg(feature = "verif-hooks")]
+impl Recv {
+    pub(super) fn verif_snap(&self) -> crate::verif::RecvSnap {
+        let (w, a) = self.flow.verif_raw();
+        crate::verif::RecvSnap {
+            init_window_sz: self.init_window_sz,
+            conn_window: w,
+            conn_available: a,
+            in_flight_data: self.in_flight_data,
+            next_stream_id: self.next_stream_id.ok().map(Into::into),
+            last_processed_id: self.last_processed_id.into(),
+            max_stream_id: self.max_stream_id.into(),
+            pending_window_updates_empty: self.pending_window_updates.is_empty(),
+            pending_accept_empty: self.pending_accept.is_empty(),
+            pending_reset_expired_empty: self.pending_reset_expired.is_empty(),
+            refused: self.refused.map(Into::into),
+            is_push_enabled: self.is_push_enabled,
+            buffer_len: self.buffer.verif_len(),
+        }
+    }
+}
